@@ -26,7 +26,9 @@
       to descend into the SHARED sub-document and write there: `addFieldsNested` = `.none`);
     * `$lookup` (1154-1164) writes `doc[as]` into the input document itself, the joined documents
       are `find()` copies;
-    * `$unwind` deep-copies the document but re-attaches the ORIGINAL element; a document kept by
+    * `$unwind` deep-copies the document once per element and keeps the COPY's own element (it
+      used to re-attach the ORIGINAL element: `unwindItem` = `.none`); a value that is no array
+      is still re-attached as it is; a document kept by
       `preserveNullAndEmptyArrays` is handed on as it is, unless an `includeArrayIndex` is to be
       written: then it is a deep copy that receives the (null) index (`unwindIndexed`); the
       sub-documents a dotted index name goes through are created inside the copy;
@@ -231,6 +233,9 @@ structure Disc where
   addFieldsNested : Copy
   /-- `$unwind`: the per-element copy of the document (`copy.deepcopy` → deep) -/
   unwindDoc : Copy
+  /-- `$unwind`: the array element an output document holds (`.deep`: the element of the output
+      document's own deep copy; `.none`: the ORIGINAL element, shared with the stage's input) -/
+  unwindItem : Copy
   /-- `$unwind` with `includeArrayIndex`: how a document KEPT by `preserveNullAndEmptyArrays` is
       taken before the (null) index is written into it (`copy.deepcopy` → deep) -/
   unwindIndexed : Copy
@@ -249,13 +254,14 @@ structure Disc where
 /-- the discipline of /repo as read (see the header); `Generated.AggDiscipline` is compared with it -/
 def Disc.reference : Disc :=
   { source := .deep, lookupForeign := .deep, lookupWritesInput := true, addFieldsTop := .shallow,
-    addFieldsNested := .shallow, unwindDoc := .deep, unwindIndexed := .deep, samplePops := false,
+    addFieldsNested := .shallow, unwindDoc := .deep, unwindItem := .deep, unwindIndexed := .deep,
+    samplePops := false,
     facetSharesInput := false, literal := .deep, constArray := .deep, outStores := .deep }
 
 /-- the discipline before the repairs (kept for the regression witnesses of Props/C16.lean) -/
 def Disc.unrepaired : Disc :=
   { Disc.reference with samplePops := true, facetSharesInput := true, literal := .none,
-                        constArray := .none, addFieldsNested := .none }
+                        constArray := .none, addFieldsNested := .none, unwindItem := .none }
 
 /-- the reference discipline WITHOUT the per-branch copy of `$facet`: what the stages' own
     discipline gives when every sub-pipeline is handed the same list -/
@@ -538,17 +544,46 @@ def keptDoc (D : Disc) (idx : Option (List String)) (doc : HV) (n : Nat) : HV ×
   | none => (doc, n)
   | some p => setPathCopy .none (.atom .null) p (D.unwindIndexed.run doc n).1 (D.unwindIndexed.run doc n).2
 
-/-- one output document per element: a copy of the document around the ORIGINAL element, with the
+/-- the `i`-th element of the array at `key` of a document -/
+def itemAt (key : String) (i : Nat) (x : HV) : Option HV :=
+  match x.get key with
+  | some (.node _ false items) => (items[i]?).map (·.2)
+  | _ => none
+
+/-- the element the `i`-th output document holds: the one of its own copy `c`, or (former
+    discipline) the original `item` -/
+def unwoundItem (D : Disc) (key : String) (i : Nat) (c item : HV) : HV :=
+  match D.unwindItem with
+  | .none => item
+  | _ => (itemAt key i c).getD item
+
+/-- one output document per element: a copy of the document holding its element alone, with the
     element's position when an index is asked for -/
 def unwindItems (D : Disc) (key : String) (idx : Option (List String)) (doc : HV) :
     Kids → Nat → Nat → List HV × Nat
   | [], _, n => ([], n)
   | (_, item) :: r, i, n =>
-    ((setIndex idx (.int i) ((D.unwindDoc.run doc n).1.setLocal key item) (D.unwindDoc.run doc n).2).1 ::
+    ((setIndex idx (.int i) ((D.unwindDoc.run doc n).1.setLocal key
+        (unwoundItem D key i (D.unwindDoc.run doc n).1 item)) (D.unwindDoc.run doc n).2).1 ::
       (unwindItems D key idx doc r (i + 1)
-        (setIndex idx (.int i) ((D.unwindDoc.run doc n).1.setLocal key item) (D.unwindDoc.run doc n).2).2).1,
+        (setIndex idx (.int i) ((D.unwindDoc.run doc n).1.setLocal key
+          (unwoundItem D key i (D.unwindDoc.run doc n).1 item)) (D.unwindDoc.run doc n).2).2).1,
      (unwindItems D key idx doc r (i + 1)
-        (setIndex idx (.int i) ((D.unwindDoc.run doc n).1.setLocal key item) (D.unwindDoc.run doc n).2).2).2)
+        (setIndex idx (.int i) ((D.unwindDoc.run doc n).1.setLocal key
+          (unwoundItem D key i (D.unwindDoc.run doc n).1 item)) (D.unwindDoc.run doc n).2).2).2)
+
+/-- an index name that goes through the unwound field itself is followed INTO what the output
+    document holds there: the model follows it only where that is private to the output document
+    — an element of its own copy; a value that is no array (a sub-document re-attached as it
+    is), or any element under the former discipline, is an object of the stage's input -/
+def indexEntersInput (D : Disc) (key : String) (idx : Option (List String)) (docs : List HV) : Bool :=
+  match idx with
+  | some (k :: _ :: _) =>
+    k == key && docs.any (fun d => match d.get key with
+      | some (.node _ true _) => true
+      | some (.node _ false _) => (match D.unwindItem with | .none => true | _ => false)
+      | _ => false)
+  | _ => false
 
 /-- `$unwind` for a top-level field -/
 def unwindDoc (D : Disc) (key : String) (preserve : Bool) (idx : Option (List String)) (doc : HV)
@@ -699,6 +734,7 @@ mutual
       -- in which one object occurs twice is outside the model
       if w.work.any (fun d => hasDup d.ids) then .error .unmodelled
       else if idx.isSome && !D.indexPrivate then .error .unmodelled
+      else if indexEntersInput D key idx w.work then .error .unmodelled
       else
         let r := unwindAll D key preserve idx w.work w.nextTmp
         .ok { w with work := r.1, nextTmp := r.2 }
@@ -803,15 +839,13 @@ def parseProject (loc : List Nat) (kids : Kids) : Stage :=
         (fun kvi => (kvi.1.1, parseExpr (loc ++ [kvi.2]) kvi.1.2)))
 
 /-- `options.get('includeArrayIndex')`: `some none` = no index (absent or falsy), `none` = outside
-    the model: an index name that is no string, a `$`-name, or a dotted name that goes through
-    the unwound field itself (there `_set_index` enters the re-attached ORIGINAL element) -/
-def parseIndex (key : String) : Option HV → Option (Option (List String))
+    the model: an index name that is no string or a `$`-name -/
+def parseIndex : Option HV → Option (Option (List String))
   | none => some none
   | some (.atom .null) => some none
   | some (.atom (.str s)) =>
     if s == "" then some none
     else if isDollar s then none
-    else if (splitDots s).head? == some key && (splitDots s).length != 1 then none
     else some (some (splitDots s))
   | some _ => none
 
@@ -825,7 +859,7 @@ def parseUnwind : HV → Stage
       if kids.any (fun kv => kv.1 != "path" && kv.1 != "preserveNullAndEmptyArrays" &&
                              kv.1 != "includeArrayIndex") then .fail .unmodelled
       else if isDollar s && (splitDots s).length == 1 then
-        match parseIndex (String.ofList (s.toList.drop 1)) (kget "includeArrayIndex" kids) with
+        match parseIndex (kget "includeArrayIndex" kids) with
         | some idx =>
           .unwind (String.ofList (s.toList.drop 1))
             (match kget "preserveNullAndEmptyArrays" kids with
